@@ -132,7 +132,7 @@ struct Ctx {
     void c05(); void c02(); void c01(); void c14(); void c03(); void c06(); void online(); void c08(); void c17();
     bool pub_matches(const OpRec& o, const Packet& p) const;
     // part 2 (oracles2.cpp)
-    void c04(); void c10(); void c11(); void c12(); void c13();
+    void c04(); void c10(); void c11(); void c11x(); void c12(); void c13();
     // part 3 (oracles3.cpp)
     void c09(); void c15(); void c18(); void c19(); void c20x();
     // activity interval of each service generation: [first initiation, last completion] of its operations.
